@@ -6,6 +6,7 @@
 package vos
 
 import (
+	"errors"
 	"io/fs"
 	"os"
 )
@@ -44,9 +45,16 @@ type Crash struct{ At Point }
 // Point identifies one crash point.
 type Point struct {
 	Op     int    `json:"op"`     // index of the mutating operation
-	When   string `json:"when"`   // before | after | partial
-	Prefix int    `json:"prefix"` // bytes written before death (partial)
+	When   string `json:"when"`   // before | after | partial (process death); fail | fail-partial (I/O error, the process lives on)
+	Prefix int    `json:"prefix"` // bytes written before death / before the error (partial, fail-partial)
 }
+
+// ErrInjected is what an operation returns at an armed "fail" / "fail-partial" point (disk full, quota,
+// I/O error): "fail" does nothing, "fail-partial" writes the prefix first (a short write).
+var ErrInjected = errors.New("injected I/O error: no space left on device")
+
+// Fired reports whether an armed fail point was reached since the last Reset.
+var Fired bool
 
 // OpRec is one logged mutating operation.
 type OpRec struct {
@@ -63,7 +71,7 @@ var (
 )
 
 // Reset clears the log and disarms.
-func Reset() { Log, armed, count = nil, nil, 0 }
+func Reset() { Log, armed, count, Fired = nil, nil, 0, false }
 
 // Arm makes the given point fatal.
 func Arm(p Point) { armed = &p }
@@ -85,6 +93,13 @@ func op(kind, name string, n int, do func(prefix int) error) error {
 	Log = append(Log, OpRec{Kind: kind, Name: name, N: n})
 	if armed != nil && armed.Op == i {
 		switch armed.When {
+		case "fail":
+			Fired = true
+			return ErrInjected
+		case "fail-partial":
+			Fired = true
+			do(armed.Prefix)
+			return ErrInjected
 		case "before":
 			panic(Crash{*armed})
 		case "partial":
@@ -158,11 +173,13 @@ func OpenFile(name string, flag int, perm FileMode) (f *File, err error) {
 	if flag&os.O_TRUNC != 0 {
 		kind = "open-truncate"
 	}
-	op(kind, name, 0, func(int) error {
+	if e := op(kind, name, 0, func(int) error {
 		of, e := os.OpenFile(name, flag, perm)
 		f, err = wrap(of, e, true)
 		return e
-	})
+	}); e != nil && err == nil {
+		f, err = nil, e
+	}
 	return
 }
 
@@ -171,11 +188,13 @@ func Create(name string) (*File, error) {
 }
 
 func CreateTemp(dir, pattern string) (f *File, err error) {
-	op("create-temp", dir+"/"+pattern, 0, func(int) error {
+	if e := op("create-temp", dir+"/"+pattern, 0, func(int) error {
 		of, e := os.CreateTemp(dir, pattern)
 		f, err = wrap(of, e, true)
 		return e
-	})
+	}); e != nil && err == nil {
+		f, err = nil, e
+	}
 	return
 }
 
